@@ -98,6 +98,22 @@ def run(ctx):
                     bad("multiphase pseudopressure of a DataFrame table depends on its index labels (it is not the integral of the documented mobility over the rows' pressures)",
                         dict(**inp, index=how), dict(scaled=[float(x) for x in msd[:4]], scaled_expected=[float(x) for x in ms[:4]],
                                                      raw=[float(x) for x in mraw[:4]], raw_expected=[float(x) for x in want[:4]]))
+        # the relative-permeability table listed in another row order (by gas saturation, i.e. descending So, or shuffled): the
+        # lookups are by saturation value, so the order of the rows must not matter
+        for how, perm in (("rows by descending So", np.arange(len(krt))[::-1]), ("rows shuffled", rng.permutation(len(krt)))):
+            try:
+                with warnings.catch_warnings():
+                    warnings.simplefilter("ignore")
+                    krp = krt.iloc[perm].reset_index(drop=True) if hasattr(krt, "iloc") else krt[perm].copy()
+                    fpk = FlowPropertiesTwoPhase.from_table(tb2, krp, rho, 0.1, sw, p_i)
+                msk = np.asarray(fpk.pvt_props["m-scaled"], float)
+            except Exception as e:  # noqa: BLE001
+                bad("FlowPropertiesTwoPhase.from_table fails on an admissible relative-permeability table", dict(**inp, kr_rows=how), repr(e)[:200])
+                continue
+            ev += 1
+            if not np.allclose(msk, ms, rtol=1e-10, atol=1e-13):
+                bad("multiphase pseudopressure depends on the row order of the relative-permeability table (it is not the integral of the documented mobility)",
+                    dict(**inp, kr_rows=how), dict(scaled=[float(x) for x in msk[:4]], scaled_expected=[float(x) for x in ms[:4]]))
         pf = float(rng.uniform(P[1], p_i * 0.999))
         mf = float(fp.m_scaled_func(pf))
         if np.any(np.diff(ms) <= 0) or not dom.relclose(float(fp.m_i), 1.0, 1e-10) or not dom.relclose(float(ms[j]), 1.0, 1e-10) or not (0 <= mf < 1):
